@@ -6,6 +6,7 @@ import (
 	"encoding/json"
 	"errors"
 	"fmt"
+	"sync/atomic"
 	"time"
 
 	"github.com/celestiaorg/go-header"
@@ -41,14 +42,14 @@ type H struct {
 	Bad   bool        `json:"bad,omitempty"` // fails Validate()
 
 	VerifyHook func(trusted, untrusted *H) error `json:"-"`
-	hash header.Hash
+	hash       header.Hash
 }
 
-func (h *H) New() *H           { return new(H) }
-func (h *H) IsZero() bool      { return h == nil }
-func (h *H) ChainID() string   { return h.Chain }
-func (h *H) Height() uint64    { return h.Ht }
-func (h *H) Time() time.Time   { return time.Unix(0, h.TNano).UTC() }
+func (h *H) New() *H                 { return new(H) }
+func (h *H) IsZero() bool            { return h == nil }
+func (h *H) ChainID() string         { return h.Chain }
+func (h *H) Height() uint64          { return h.Ht }
+func (h *H) Time() time.Time         { return time.Unix(0, h.TNano).UTC() }
 func (h *H) LastHeader() header.Hash { return h.Prev }
 
 func (h *H) Hash() header.Hash {
@@ -92,6 +93,21 @@ func (h *H) UnmarshalBinary(b []byte) error {
 	if bytes.HasPrefix(b, []byte("BOOM")) {
 		panic("vk: UnmarshalBinary panics on BOOM payload")
 	}
+	if MergeDecode.Load() {
+		// the common json.Unmarshal(b, h) idiom: fields absent from the payload keep whatever the
+		// receiver held before (a correct caller always passes a fresh header)
+		dec := json.NewDecoder(bytes.NewReader(b))
+		dec.DisallowUnknownFields()
+		if err := dec.Decode(h); err != nil {
+			return err
+		}
+		if dec.More() {
+			return errors.New("vk: trailing data after header")
+		}
+		h.hash = nil
+		h.Hash()
+		return nil
+	}
 	var n H
 	dec := json.NewDecoder(bytes.NewReader(b))
 	dec.DisallowUnknownFields()
@@ -106,6 +122,9 @@ func (h *H) UnmarshalBinary(b []byte) error {
 	h.Hash()
 	return nil
 }
+
+// MergeDecode switches UnmarshalBinary to decoding straight into the receiver.
+var MergeDecode atomic.Bool
 
 func (h *H) String() string {
 	if h == nil {
